@@ -24,6 +24,7 @@ impl Writer<TW> for SpyWriter {
     type Cli = cli::Empty;
     async fn handle_event(&mut self, ev: RawItem, _: &cli::Empty) {
         exec::record_event(canon::canon(&ev));
+        exec::keep_alive(&ev);
     }
 }
 impl writer::Normalized for SpyWriter {}
